@@ -475,8 +475,12 @@ fn run_blocks(c: &mut Case, blocks: &[[u8; 8]], tag: &str) {
 fn check_ci8(c: &mut Case, w: usize, h: usize, rng: &mut Rng) {
     let aw = (w + 7) / 8 * 8;
     let ah = (h + 3) / 4 * 4;
-    let npal = rng.range(1, 256);
+    // palette sizes: the extremes (1, 2, 255, 256 entries) every third time
+    let npal = if rng.chance(1, 3) { *rng.pick(&[1usize, 2, 16, 255, 256, 256]) } else { rng.range(1, 256) };
     let palette: Vec<u16> = (0..npal).map(|_| rng.u32() as u16).collect();
+    if npal == 256 && w * h >= 256 {
+        c.sit("ci8_index_255_of_a_256_entry_palette");
+    }
     // padding cells (outside w x h) hold an index that is NOT in the palette: they must never be looked up
     let mut payload = vec![if npal < 256 { 0xFF } else { 0 }; aw * ah];
     // index = position mod palette size inside the image
